@@ -370,6 +370,8 @@ func startCluster(cfg caseCfg, mon *monitor) (*cluster, error) {
 			return c, fmt.Errorf("StartReplica %d (join): %w", h.id, err)
 		}
 	}
+	c.healthy()
+	c.caughtUp(40 * time.Second)
 	return c, nil
 }
 
@@ -492,7 +494,9 @@ func (c *cluster) healthy() (*host, bool) {
 		all := true
 		for _, h := range c.hosts {
 			h.with(func(nh *dragonboat.NodeHost) {
-				if n := dragonboat.VerifR21Inspect(nh, shardID); h.shard && !(n.Found && n.Initialized) {
+				// ... and has applied something: a replica that joined and has applied nothing yet has an
+				// empty membership, and a snapshot request on it panics the process (rsm getSSMeta)
+				if n := dragonboat.VerifR21Inspect(nh, shardID); h.shard && !(n.Found && n.Initialized && n.Peer.Applied > 0) {
 					all = false
 				}
 			})
